@@ -584,6 +584,8 @@ class Interp:
         arguments of the declared dimension, the caller owes `argument has that dimension`"""
         spec, outshape = MODULAR[key][:2]
         retdeg = MODULAR[key][2] if len(MODULAR[key]) > 2 else None
+        if len(MODULAR[key]) > 3 and self.stack and self.stack[0] in MODULAR[key][3]:
+            spec = MODULAR[key][3][self.stack[0]]
         params = [a.arg for a in fref.node.args.args]
         bound = dict(zip(params, args))
         bound.update(kwargs)
@@ -1523,11 +1525,73 @@ ENTRIES = [
      {"points": ("arr", (1, 3), L), "faces": ("arr", (2, 3, 3), L)}, {}, None),
     ("trimesh_lines_end", F + "field_BH_triangularmesh", "lines_end_in_trimesh",
      {"lines": ("arr", (1, 2, 3), L), "faces": ("arr", (2, 3, 3), L)}, {}, None),
+    # is_facet_inwards and segments_intersect_facets are only reached through get_inwards_mask /
+    # get_intersecting_triangles, which hand them a copy of the mesh normalised to unit size (checked by the
+    # two prefix entries below and by CALL_ROOTS): their inputs are DIMENSIONLESS
     ("trimesh_facet_inwards", F + "field_BH_triangularmesh", "is_facet_inwards",
-     {"face": ("arr", (3, 3), L), "faces": ("arr", (2, 3, 3), L)}, {}, None),
+     {"face": ("arr", (3, 3), D0), "faces": ("arr", (2, 3, 3), D0)}, {}, None),
     ("trimesh_selfintersect", F + "field_BH_triangularmesh", "segments_intersect_facets",
-     {"segments": ("arr", (1, 2, 3), L), "facets": ("arr", (1, 3, 3), L)}, {}, None),
+     {"segments": ("arr", (1, 2, 3), D0), "facets": ("arr", (1, 3, 3), D0)}, {}, None),
+    # prefix entries: the straight-line head of the function is executed up to the first statement for which
+    # `stop` holds; the watched variables must then have the stated degree (they are what the rest of the
+    # function hands to the seed test / the intersection test)
+    ("trimesh_inwards_mask", F + "field_BH_triangularmesh", "get_inwards_mask",
+     {"vertices": ("arr", (3, 3), L), "triangles": ("val", np.array([[0, 1, 2]]))}, {}, None,
+     {"stop": "while", "watch": {"msh": D0}}),
+    ("trimesh_intersecting", F + "field_BH_triangularmesh", "get_intersecting_triangles",
+     {"vertices": ("arr", (3, 3), L), "triangles": ("val", np.array([[0, 1, 2]]))}, {}, None,
+     {"stop": "kdtree", "watch": {"facets": D0, "centers": D0, "r": D0}}),
 ]
+
+# syntactic tie between the prefix entries and the calls in the un-executed rest of those functions: every
+# array argument of the callee is (an index expression of) one of the watched, normalised variables
+CALL_ROOTS = [
+    ("field_BH_triangularmesh", "get_inwards_mask", "is_facet_inwards", {"msh"}, {}),
+    ("field_BH_triangularmesh", "get_intersecting_triangles", "segments_intersect_facets", {"facets"},
+     {"eps": "eps"}),
+]
+
+
+def check_call_roots(interp):
+    for modname, fname, callee, roots, kw_names in CALL_ROOTS:
+        mod = interp.module(F + modname)
+        fn = mod.funcs.get(fname)
+        if fn is None:
+            raise Untranslatable(f"{fname} not found")
+        alias = {}
+        for node in ast.walk(fn):       # one level of `a, b = X[..], X[..]` / `a = X[..]`
+            if isinstance(node, ast.Assign) and len(node.targets) == 1:
+                t, v = node.targets[0], node.value
+                pairs = list(zip(t.elts, v.elts)) if isinstance(t, ast.Tuple) and isinstance(v, ast.Tuple) \
+                    and len(t.elts) == len(v.elts) else [(t, v)]
+                for tt, vv in pairs:
+                    if isinstance(tt, ast.Name):
+                        alias.setdefault(tt.id, []).append(vv)
+
+        def root(e, depth=0):
+            while isinstance(e, ast.Subscript):
+                e = e.value
+            if isinstance(e, ast.Name):
+                if e.id in roots:
+                    return True
+                if depth < 2 and e.id in alias and e.id not in ("vertices",):
+                    return all(root(v, depth + 1) for v in alias[e.id])
+            return False
+        calls = [n for n in ast.walk(fn) if isinstance(n, ast.Call) and isinstance(n.func, ast.Name)
+                 and n.func.id == callee]
+        if not calls:
+            raise Untranslatable(f"{fname} no longer calls {callee}")
+        for c in calls:
+            for a in c.args:
+                if not root(a):
+                    raise Untranslatable(f"{fname}: argument `{ast.unparse(a)}` of {callee} is not derived from "
+                                         f"the normalised {sorted(roots)}")
+            for k in c.keywords:
+                if k.arg in kw_names and ast.unparse(k.value) == kw_names[k.arg]:
+                    continue
+                if not root(k.value):
+                    raise Untranslatable(f"{fname}: keyword `{ast.unparse(k)}` of {callee} not understood")
+
 
 # the cores below take DIMENSIONLESS arguments only (the wrapper divides by the radius first): they are
 # modelled as opaque functions whose arguments must have degree 0 (checked by Dim.deg: Fn0)
@@ -1542,8 +1606,11 @@ OPAQUE_FUNCS = {
 # functions that are entry points of their own and are called from other entry points: (parameter
 # degrees owed by the caller, shape of the boolean result)
 MODULAR = {
+    # called from BHJM_magnet_trimesh with lengths; from is_facet_inwards with the normalised (dimensionless)
+    # mesh: a function applied to dimensionless data cannot depend on the unit, whatever it does inside
     ("field_BH_triangularmesh", "mask_inside_trimesh"):
-        ({"points": L, "faces": L}, lambda b: (len(b["points"]),)),
+        ({"points": L, "faces": L}, lambda b: (len(b["points"]),), None,
+         {"trimesh_facet_inwards": {"points": D0, "faces": D0}}),
     ("field_BH_triangularmesh", "lines_end_in_trimesh"):
         ({"lines": L, "faces": L}, lambda b: (len(b["lines"]),)),
     # the triangle field is an entry of its own (degree 0 in length, 1 in excitation for field B and H)
@@ -1578,6 +1645,34 @@ STATIC_OK = {
 }
 
 
+def run_prefix(interp, mod, fn, kw, opts, key):
+    """execute the head of fn up to the first statement whose source starts with opts['stop']"""
+    params = [a.arg for a in fn.args.args]
+    env = {}
+    defaults = fn.args.defaults
+    for i, d in enumerate(defaults):
+        env[params[len(params) - len(defaults) + i]] = interp.expr(d, {}, mod)
+    env.update(kw)
+    for p in params:
+        if p not in env:
+            raise Untranslatable(f"{fn.name}: missing argument {p}")
+    interp.stack.append(fn.name)
+    stopped = False
+    for st in fn.body:
+        if ast.unparse(st).lstrip().startswith(opts["stop"]):
+            stopped = True
+            break
+        interp.stmt(st, env, mod)
+    if not stopped:
+        raise Untranslatable(f"{fn.name}: stop statement `{opts['stop']}` not found")
+    for name, d in opts["watch"].items():
+        if name not in env:
+            raise Untranslatable(f"{fn.name}: watched variable {name} is not defined before `{opts['stop']}`")
+        for i, x in enumerate(np.ravel(obj(env[name]))):
+            interp.arg_obligations.append((">".join(interp.stack + [f"arg:{name}.{i}"]), d, num(x)))
+    interp.stack.pop()
+
+
 def run_entry(interp, entry, envs):
     key, modname, fname, params, variants, ret = entry[:6]
     mod = interp.module(modname)
@@ -1606,7 +1701,11 @@ def run_entry(interp, entry, envs):
         tag = ",".join(f"{n}={v}" for n, v in zip(names, combo))
         interp.stack = [key]
         interp.arg_obligations = []
-        val = interp.call_function(mod.globals[fname], [], kw, fname)
+        if len(entry) > 6:
+            val = None
+            run_prefix(interp, mod, fn, kw, entry[6], key)
+        else:
+            val = interp.call_function(mod.globals[fname], [], kw, fname)
         for did, d, x in interp.arg_obligations:
             if not any(did == o[0] and x is o[2] for o in degs):
                 if any(did == o[0] for o in degs):
@@ -1733,6 +1832,7 @@ def analyse(repo):
         n0 = len(interp.records)
         degs = run_entry(interp, entry, envs)
         per_entry.append((entry[0], n0, degs, envs))
+    check_call_roots(interp)
     static = inventory(interp)
     return {"interp": interp, "per_entry": per_entry, "static": static}
 
